@@ -80,6 +80,8 @@ def run_case(case_id: int, ops_override=None, target_override=None):
                     for c_ in rng.sample(range(len(pool)), rng.randint(3, len(pool))):
                         planned.append({'op': 'add', 'h': rng.randrange(nh), 'c': c_, 'via': rng.choice(['bytes', 'stream'])})
                     per_pack = rng.random() < 0.5
+                    if nh > 1 and rng.random() < 0.35:
+                        planned.append({'op': rng.choice(['lazylist', 'lazymeta']), 'h': rng.randrange(1, nh), 'k': 0})
                     planned.append({'op': 'pack', 'mode': rng.choice(['no', 'yes', 'auto', 'keep']), 'clean': per_pack})
                     if not per_pack or rng.random() < 0.5:
                         planned.append({'op': 'clean'})
@@ -113,6 +115,52 @@ def run_case(case_id: int, ops_override=None, target_override=None):
                         fail('add-key', f'handle {op["h"]} returned a wrong key for cid {op["c"]}')
                     acked.add(op['c'])
                     ask(f'multi add {op["h"]} {op["c"]}')
+                elif kind in ('lazylist', 'lazymeta') and op['h'] != 0:
+                    # a query consumed step by step, with the packing handle packing and cleaning after its first result:
+                    # everything acknowledged before the query started must still be reported (no model for the mixture; the
+                    # handles are brought back in step with the model by a plain listing afterwards)
+                    hd = handles[op['h']]
+                    before = set(acked)
+                    req = [key(x) for x in range(len(pool))]
+                    gen_ = hd.list_all_objects() if kind == 'lazylist' else hd.get_objects_meta(req, skip_if_missing=False)
+                    got_items = []
+                    first_ = next(gen_, None)
+                    if first_ is not None:
+                        got_items.append(first_)
+                    pre = Raw(folder)
+                    handles[0].pack_all_loose(compress=rng.random() < 0.5, clean_loose_per_pack=rng.random() < 0.5)
+                    handles[0].clean_storage()
+                    post = Raw(folder)
+                    pre_keys = {r[1] for r in pre.rows}
+                    new = [r for r in post.rows if r[1] not in pre_keys]
+                    rows = []
+                    for p in sorted({r[2] for r in new}):
+                        rows += store.rows_sorted_for_order([r for r in new if r[2] == p])
+                    ask(f'multi list {op["h"]}')
+                    out = ask(f'multi pack {"yes" if rows and rows[0][5] else "no"} 0 {store.show_nats([cid(r[1]) for r in rows])} '
+                              f'{store.show_nats([1 if r[5] else 0 for r in rows])}')
+                    ask('multi clean')
+                    got_items += list(gen_)
+                    if kind == 'lazylist':
+                        seen_ = {cid(x) for x in got_items}
+                        miss = sorted(before - seen_)
+                        if miss:
+                            fail('lazylist-stale', f'handle {op["h"]}: a listing consumed step by step (the packing handle packed and cleaned after its first result) '
+                                                   f'omits cids {miss[:4]}, acknowledged before it started')
+                    else:
+                        rep_ = {cid(hk): m_['type'].value for hk, m_ in got_items}
+                        miss = sorted(x for x in before if rep_.get(x, 'missing') == 'missing')
+                        if miss:
+                            fail('lazymeta-stale', f'handle {op["h"]}: get_objects_meta consumed step by step (the packing handle packed and cleaned after its first '
+                                                   f'result) reports cids {miss[:4]} as missing, acknowledged before it started')
+                    # resynchronise: a plain listing refreshes the handle's snapshot on both sides
+                    list(hd.list_all_objects())
+                    ask(f'multi list {op["h"]}')
+                    if out != 'ok':
+                        break
+                    res['stats']['lazy_queries'] = res['stats'].get('lazy_queries', 0) + 1
+                elif kind in ('lazylist', 'lazymeta'):
+                    pass
                 elif kind == 'pack':
                     pre = Raw(folder)
                     handles[0].pack_all_loose(compress=store._mode_obj(dos, op['mode']), clean_loose_per_pack=op['clean'])  # pylint: disable=protected-access
